@@ -296,7 +296,7 @@ Section Ref.
     match pc st with
     | PVisit i | PPolled i => sc st = Some i
     | PWait i _ => sc st = Some (S i)
-    | PHead | PYield => sc st = None
+    | PHead | PYield _ => sc st = None
     | PFinally x | PTerm x _ | PJoin x _ | PDrop x | PExited x =>
       match x with XNormal | XRaisedHead | XAbandon => sc st = None | _ => True end
     end.
@@ -317,17 +317,17 @@ Section Ref.
     intros i [es late] e evs. unfold acc_evs, acc1; cbn. destruct (is_early p i e); cbn; rewrite <- app_assoc; reflexivity.
   Qed.
 
-  Lemma RI_poll : forall rp sn taken f a f' a' b i acc, Inv c a f rp sn -> RI a i acc -> poll f a taken = Some (f', a', b) ->
+  Lemma RI_poll : forall rp sn taken f a f' a' i acc, Inv c a f rp sn -> RI a i acc -> poll f a taken = Some (f', a') ->
     RI a' i (acc_evs i acc (poll_evs taken)).
   Proof.
-    intros rp sn taken. induction taken as [|[w m] t IH]; intros f a f' a' b i acc H R P; cbn in P.
+    intros rp sn taken. induction taken as [|[w m] t IH]; intros f a f' a' i acc H R P; cbn in P.
     - inversion P; subst. cbn. rewrite acc_evs_nil. exact R.
     - destruct (spawned (phase (f w))); [|discriminate]. destruct (take_msg (f w) m) as [x|] eqn:T; [|discriminate].
       pose proof (Inv_take c Hp a f rp sn w m x H T) as H'. destruct m as [s|].
       + destruct (Inv_infl_fresh c a f rp sn H w s (take_msg_infl _ s _ T)) as (G1 & G2 & G3).
         cbn [poll_evs flat_map snd app]. change (flat_map _ t) with (poll_evs t). rewrite acc_evs_cons.
         eapply IH; [exact H' | | exact P]. rewrite <- (worker_done_add_done a s G1 G2 G3). apply RI_event; assumption.
-      + destruct t; [|discriminate]. inversion P; subst. cbn. rewrite acc_evs_nil. exact R.
+      + cbn [poll_evs flat_map snd app]. change (flat_map _ t) with (poll_evs t). eapply IH; [exact H' | exact R | exact P].
   Qed.
 
   Ltac des S := repeat (dm S; try discriminate S).
@@ -363,6 +363,8 @@ Section Ref.
     - des S; inv_some S; pcsolve HP.
     - des S; inv_some S; pcsolve HP.
     - des S; inv_some S; pcsolve HP.
+    - des S; inv_some S; pcsolve HP.
+    - des S; inv_some S; unfold PcSc; cbn; auto.
     - des S; inv_some S; pcsolve HP.
   Qed.
 
@@ -435,6 +437,11 @@ Section Ref.
       rewrite <- (worker_done_add_failed _ s G1 G2 G3). apply RI_event; assumption.
     - (* WDropAck *) rewrite proj_step_noev; [|reflexivity|discriminate]. des S; inv_some S; exact R.
     - (* WDropCrash *) rewrite proj_step_noev; [|reflexivity|discriminate]. des S; inv_some S; exact R.
+    - (* OSendFail *)
+      rewrite proj_step_noev; [|reflexivity|discriminate]. unfold PcSc in HP.
+      destruct (pc st) eqn:Epc; try discriminate S. destruct (nth_error p i) as [s|] eqn:En; [|discriminate S]. rewrite HP in R.
+      des S; inv_some S; cbn; apply RI_visit; assumption.
+    - (* ONext *) rewrite proj_step_noev; [|reflexivity|discriminate]. des S; inv_some S; exact R.
   Qed.
 
   Lemma G_init : G pinit ([], []).
